@@ -11,7 +11,7 @@ if what in ("rules", "all"):
         print("| %s | %d | %s |" % (e["property_id"], c["obligations"], rs))
     print()
 if what in ("seeded", "all"):
-    for rnd, pat in (("round 2", "-2"), ("round 3", "-3"), ("round 4", "-4"), ("round 5", "-5"), ("round 6", "-6"), ("round 7", "-7"), ("round 8", "-8"), ("round 9", "-9"), ("round 10", "-10"), ("round 11", "-11"), ("round 12", "-12"), ("round 13", "-13"), ("round 14", "-14"), ("round 15", "-15"), ("round 16", "-16")):
+    for rnd, pat in (("round 2", "-2"), ("round 3", "-3"), ("round 4", "-4"), ("round 5", "-5"), ("round 6", "-6"), ("round 7", "-7"), ("round 8", "-8"), ("round 9", "-9"), ("round 10", "-10"), ("round 11", "-11"), ("round 12", "-12"), ("round 13", "-13"), ("round 14", "-14"), ("round 15", "-15"), ("round 16", "-16"), ("round 17", "-17")):
         print("**%s**\n\n| id | files | change | reported by |\n|---|---|---|---|" % rnd)
         for d in sorted(glob.glob("/verif/seeded/*%s?" % pat)):
             m = json.load(open(d + "/meta.json"))
